@@ -1,6 +1,7 @@
 package main
 
 import (
+	"go/constant"
 	"go/types"
 	"fmt"
 	"go/token"
@@ -5643,4 +5644,340 @@ func extraStatusWriteIgnoresCtx(c *Ctx, r *Report, rule string) {
 	}
 	addMutants(Mutant{Prop: strings.Split(rule, "-")[0], Name: "status-write-refuses-expired-context", File: "internal/adapter/discovery/repository.go", Rule: rule,
 		Old: "func (r *StaticEndpointRepository) UpdateEndpoint(ctx context.Context, endpoint *domain.Endpoint) error {\n", New: "func (r *StaticEndpointRepository) UpdateEndpoint(ctx context.Context, endpoint *domain.Endpoint) error {\n	if ctx.Err() != nil {\n		return ctx.Err()\n	}\n"})
+}
+
+// ---------- C07-R14 / C04-R14 / C03-R17: the repository applies every status update of a known endpoint ----------
+func init() {
+	registerExtra("C07", func(c *Ctx, r *Report) { extraRepoAppliesUpdate(c, r, "C07-R14") })
+	registerExtra("C04", func(c *Ctx, r *Report) { extraRepoAppliesUpdate(c, r, "C04-R14") })
+	registerExtra("C03", func(c *Ctx, r *Report) { extraRepoAppliesUpdate(c, r, "C03-R17") })
+}
+
+func extraRepoAppliesUpdate(c *Ctx, r *Report, rule string) {
+	r.Rule(rule, "StaticEndpointRepository.UpdateEndpoint answers nil only after it has stored the incoming Status into the stored endpoint (closures run under its lock helpers included): an update that is 'skipped' with a nil result — because the stored record looks newer, unchanged, or for any other reason — silently discards a health-check result or an offline mark from a failed attempt, and both writers treat nil as 'recorded'", 1)
+	f := c.Fn("internal/adapter/discovery", "(*StaticEndpointRepository).UpdateEndpoint")
+	if f == nil {
+		r.Unresolved(rule, "(*StaticEndpointRepository).UpdateEndpoint")
+		return
+	}
+	isStatusStore := func(in ssa.Instruction) bool {
+		st, ok := in.(*ssa.Store)
+		if ok && isField(st.Addr, pkgDomain, "Endpoint", "Status") {
+			return true
+		}
+		// the store may sit in a closure handed to a lock helper, or in a callee
+		if cc := getCall(in); cc != nil {
+			found := false
+			var look func(g *ssa.Function, d int)
+			look = func(g *ssa.Function, d int) {
+				if g == nil || g.Blocks == nil || d == 0 || found {
+					return
+				}
+				eachInstr(g, func(x ssa.Instruction) {
+					if st, ok := x.(*ssa.Store); ok && isField(st.Addr, pkgDomain, "Endpoint", "Status") {
+						found = true
+					}
+				})
+			}
+			if sc := cc.StaticCallee(); sc != nil && c.inRepo(sc) {
+				look(sc, 2)
+			}
+			for _, a := range cc.Args {
+				if mc, ok := a.(*ssa.MakeClosure); ok {
+					if g, ok := mc.Fn.(*ssa.Function); ok {
+						look(g, 2)
+					}
+				}
+			}
+			return found
+		}
+		return false
+	}
+	key := fname(f) + ":nil-only-after-status-store"
+	var bad *ssa.Return
+	// f itself and the closures it runs: a closure's `return` without the store that makes the outer function answer nil
+	// shows up as the outer return being reachable around the helper call only if the helper call is not a store — covered
+	// by treating the helper call as the store only when the closure contains one on EVERY path
+	for _, vr := range virtualReturns(f, f.Signature.Results().Len()-1) {
+		if !isNilConst(vr.Val) {
+			continue
+		}
+		if reachFromEntryAvoiding(f, vr.At, isStatusStore) {
+			bad = vr.Ret
+		}
+	}
+	// closures handed to helpers: inside them, every return passes the status store or happens under the not-found fact
+	for _, g := range f.AnonFuncs {
+		hasStore := false
+		eachInstr(g, func(x ssa.Instruction) {
+			if st, ok := x.(*ssa.Store); ok && isField(st.Addr, pkgDomain, "Endpoint", "Status") {
+				hasStore = true
+			}
+		})
+		if !hasStore {
+			continue
+		}
+		for _, ret := range returnsOf(g) {
+			if !reachFromEntryAvoiding(g, ret, func(x ssa.Instruction) bool {
+				st, ok := x.(*ssa.Store)
+				return ok && isField(st.Addr, pkgDomain, "Endpoint", "Status")
+			}) {
+				continue
+			}
+			// allowed: the not-found exit (comma-ok of the map lookup is false)
+			notFound := false
+			for _, cf := range normFacts(condFacts(ret.Block())) {
+				if ex, ok := cf.Cond.(*ssa.Extract); ok && ex.Index == 1 && !cf.True {
+					if _, isLk := ex.Tuple.(*ssa.Lookup); isLk {
+						notFound = true
+					}
+				}
+			}
+			if !notFound {
+				bad = ret
+			}
+		}
+	}
+	if bad != nil {
+		r.Bad(rule, key, bad.Pos(), "UpdateEndpoint can answer nil without having stored the incoming status: the writer believes its health-check result / offline mark was recorded, but the stored endpoint keeps its old status")
+	} else {
+		r.OK(rule, key, f.Pos(), "every nil answer follows the store of the incoming status")
+	}
+	addMutants(Mutant{Prop: strings.Split(rule, "-")[0], Name: "repository-skips-older-update", File: "internal/adapter/discovery/repository.go", Rule: rule,
+		Old: "	existing.Status = endpoint.Status\n", New: "	if existing.Status == endpoint.Status && endpoint.LastChecked.Before(existing.LastChecked) {\n		return nil\n	}\n	existing.Status = endpoint.Status\n"})
+}
+
+// ---------- C05-R12: the backend's status is relayed as the answer's status only when it is an error status ----------
+func init() { registerExtra("C05", extraC05RelayOnlyErrorStatus) }
+
+func extraC05RelayOnlyErrorStatus(c *Ctx, r *Report) {
+	r.Rule("C05-R12", "the handler functions that answer the client with the backend attempt's own status (they pass the recorder's status to WriteError / WriteHeader, C05-R4) are called only under the fact recorder.status >= 400 — every call site is control-dependent on that comparison alone, not on a disjunction with a property of the body: relayed for a 2xx answer whose body merely contains an error object, the client would receive an error in a 200", 2)
+	n := 0
+	for _, name := range []string{"(*Application).handleNonStreamingBackendError", "(*Application).handleStreamingBackendError"} {
+		fn := c.Fn(pkgHandlers, name)
+		if fn == nil {
+			r.Unresolved("C05-R12", pkgHandlers+"."+name)
+			continue
+		}
+		for _, site := range c.staticCallSites(func(ci callInfo) bool { return ci.Static == fn }) {
+			n++
+			key := fmt.Sprintf("%s→%s:error-status-only", fname(site.Parent()), cshort(fn))
+			guarded := false
+			for _, cf := range normFacts(condFacts(site.Block())) {
+				bo, ok := cf.Cond.(*ssa.BinOp)
+				if !ok {
+					continue
+				}
+				k, isK := constInt(bo.Y)
+				if !isK || !mentionsRecorderStatus(c, bo.X, 3) {
+					continue
+				}
+				switch {
+				case bo.Op == token.GEQ && cf.True && k >= 400,
+					bo.Op == token.GTR && cf.True && k >= 399,
+					bo.Op == token.LSS && !cf.True && k >= 400,
+					bo.Op == token.LEQ && !cf.True && k >= 399:
+					guarded = true
+				}
+			}
+			if guarded {
+				r.OK("C05-R12", key, site.Pos(), "reached only with recorder.status >= 400")
+			} else {
+				r.Bad("C05-R12", key, site.Pos(), "the function that answers with the backend's own status can be reached while that status is below 400 (the call is not control-dependent on status >= 400 alone): a failure is then reported to the client inside a 2xx")
+			}
+		}
+	}
+	if n == 0 {
+		r.Undecided("C05-R12", "relay-call-sites", token.NoPos, "no call site of the backend-error relays found")
+	}
+	addMutants(Mutant{Prop: "C05", Name: "error-object-in-2xx-relayed", File: "internal/app/handlers/handler_translation.go", Rule: "C05-R12",
+		Old: "	if recorder.status >= 400 {\n		return a.handleNonStreamingBackendError(w, recorder, openaiResp, pr, trans)", New: "	if _, hasErr := openaiResp[\"error\"]; recorder.status >= 400 || hasErr {\n		return a.handleNonStreamingBackendError(w, recorder, openaiResp, pr, trans)"})
+}
+
+// evalOnConstString runs a function whose control flow only tests its first parameter (a string-kinded value) against
+// constants — a switch over constants — for the concrete value k and returns the value it returns, or nil when a
+// branch depends on anything else.
+func evalOnConstString(fn *ssa.Function, k string) ssa.Value {
+	if fn == nil || len(fn.Blocks) == 0 || len(fn.Params) == 0 {
+		return nil
+	}
+	p := ssa.Value(fn.Params[0])
+	b := fn.Blocks[0]
+	var prev *ssa.BasicBlock
+	for steps := 0; steps < 200; steps++ {
+		switch last := lastInstr(b).(type) {
+		case *ssa.Return:
+			if len(last.Results) != 1 {
+				return nil
+			}
+			v := last.Results[0]
+			if ph, ok := v.(*ssa.Phi); ok && ph.Block() == b && prev != nil {
+				for i, pr := range b.Preds {
+					if pr == prev {
+						return ph.Edges[i]
+					}
+				}
+				return nil
+			}
+			return v
+		case *ssa.If:
+			bo, ok := last.Cond.(*ssa.BinOp)
+			if !ok || (bo.Op != token.EQL && bo.Op != token.NEQ) {
+				return nil
+			}
+			var ks string
+			var isK bool
+			if bo.X == p {
+				ks, isK = constString(bo.Y)
+			} else if bo.Y == p {
+				ks, isK = constString(bo.X)
+			}
+			if !isK {
+				return nil
+			}
+			eq := ks == k
+			if bo.Op == token.NEQ {
+				eq = !eq
+			}
+			prev = b
+			if eq {
+				b = b.Succs[0]
+			} else {
+				b = b.Succs[1]
+			}
+		case *ssa.Jump:
+			prev = b
+			b = b.Succs[0]
+		default:
+			return nil
+		}
+	}
+	return nil
+}
+
+// ---------- C06-R11 / C19-R13: connection counts are read from the live gauges ----------
+func init() {
+	registerExtra("C06", func(c *Ctx, r *Report) { extraLiveConnectionStats(c, r, "C06-R11") })
+	registerExtra("C19", func(c *Ctx, r *Report) { extraLiveConnectionStats(c, r, "C19-R13") })
+	registerExtra("C06", extraC06RoutableHasWeight)
+}
+
+func extraLiveConnectionStats(c *Ctx, r *Report, rule string) {
+	r.Rule(rule, "the collector's connection snapshot (the map[string]int64 the least-connections balancer asks for on every selection) is built anew on every call: each return is a map made in that call and every value stored into it is a sync/atomic load of an endpoint's gauge — not a cached map handed out again, which an increment racing with the rebuild leaves stale until the next change", 1)
+	n := 0
+	for _, f := range c.Funcs {
+		if f.Parent() != nil || !strings.HasSuffix(fnPkgPath(f), "internal/adapter/stats") || f.Signature.Recv() == nil || !isNamed(f.Signature.Recv().Type(), "internal/adapter/stats", "Collector") {
+			continue
+		}
+		res := f.Signature.Results()
+		if res.Len() != 1 {
+			continue
+		}
+		mt, ok := res.At(0).Type().Underlying().(*types.Map)
+		if !ok || mt.Key().String() != "string" || mt.Elem().String() != "int64" {
+			continue
+		}
+		n++
+		key := fname(f) + ":live-snapshot"
+		bad := ""
+		for _, v := range flatResults(f, 0) {
+			mm, isMake := v.(*ssa.MakeMap)
+			if !isMake {
+				bad = "a return hands out a map that was not made in this call (" + c.Pos(v.Pos()) + ")"
+				continue
+			}
+			// every update of the fresh map stores an atomic load
+			for _, g := range withAnon(f) {
+				eachInstr(g, func(in ssa.Instruction) {
+					mu, ok := in.(*ssa.MapUpdate)
+					if !ok {
+						return
+					}
+					if resolveOrigin(c, mu.Map, 4) != ssa.Value(mm) && mu.Map != ssa.Value(mm) {
+						return
+					}
+					val := mu.Value
+					if kind, _, _, _, isA := atomicFieldCall(valueInstr(val)); !isA || kind != "load" {
+						bad = "a value stored into the snapshot is not an atomic load of a gauge (" + c.Pos(in.Pos()) + ")"
+					}
+				})
+			}
+		}
+		if bad == "" {
+			r.OK(rule, key, f.Pos(), "fresh map filled with atomic loads of the gauges")
+		} else {
+			r.Bad(rule, key, f.Pos(), bad+": least-connections can decide on counts that are older than the increments already made")
+		}
+	}
+	if n == 0 {
+		r.Undecided(rule, "connection-snapshot", token.NoPos, "no Collector method returning map[string]int64 found")
+	}
+	addMutants(Mutant{Prop: strings.Split(rule, "-")[0], Name: "connection-stats-cached", File: "internal/adapter/stats/collector.go", Rule: rule,
+		Old: "func (c *Collector) GetConnectionStats() map[string]int64 {\n	stats := make(map[string]int64)\n", New: "var lastConnStats map[string]int64\n\nfunc (c *Collector) GetConnectionStats() map[string]int64 {\n	if lastConnStats != nil && c.endpoints.Size() == len(lastConnStats) {\n		return lastConnStats\n	}\n	stats := make(map[string]int64)\n	lastConnStats = stats\n"})
+}
+
+func valueInstr(v ssa.Value) ssa.Instruction {
+	in, _ := v.(ssa.Instruction)
+	return in
+}
+
+// ---------- C06-R12: every routable status carries traffic weight ----------
+func extraC06RoutableHasWeight(c *Ctx, r *Report) {
+	r.Rule("C06-R12", "for every EndpointStatus constant for which IsRoutable() answers true, GetTrafficWeight() answers a positive constant (both functions evaluated as switches over the constants): the priority balancer admits a routable endpoint to the tier but draws among tier members by weight, so a routable status with weight 0 is never picked while a weighted peer exists — 'every member of the tier is eventually picked' fails for it", 3)
+	ir := c.Fn(pkgDomain, "EndpointStatus.IsRoutable")
+	gw := c.Fn(pkgDomain, "EndpointStatus.GetTrafficWeight")
+	if ir == nil || gw == nil {
+		r.Unresolved("C06-R12", "domain.(EndpointStatus).IsRoutable / GetTrafficWeight")
+		return
+	}
+	// the status constants: package-level constants of type EndpointStatus
+	pkg := c.ByPath[modPath+"/"+pkgDomain]
+	if pkg == nil {
+		r.Unresolved("C06-R12", "package "+pkgDomain)
+		return
+	}
+	n := 0
+	scope := pkg.Types.Scope()
+	for _, name := range scope.Names() {
+		k, ok := scope.Lookup(name).(*types.Const)
+		if !ok || !isNamed(k.Type(), pkgDomain, "EndpointStatus") {
+			continue
+		}
+		val := strings.Trim(k.Val().ExactString(), "\"")
+		rv := evalOnConstString(ir, val)
+		rk, okR := rv.(*ssa.Const)
+		if rv == nil || !okR || rk.Value == nil {
+			r.Undecided("C06-R12", "status:"+name, ir.Pos(), "IsRoutable could not be evaluated for this constant")
+			continue
+		}
+		if rk.Value.String() != "true" {
+			continue
+		}
+		n++
+		key := "status:" + name + ":routable-has-weight"
+		wv := evalOnConstString(gw, val)
+		wk, okW := wv.(*ssa.Const)
+		if wv == nil || !okW || wk.Value == nil {
+			r.Undecided("C06-R12", key, gw.Pos(), "GetTrafficWeight could not be evaluated for this constant")
+			continue
+		}
+		if f, _ := constantFloat(wk); f > 0 {
+			r.OK("C06-R12", key, gw.Pos(), fmt.Sprintf("routable, weight %v", f))
+		} else {
+			r.Bad("C06-R12", key, gw.Pos(), "a routable status has traffic weight 0: an endpoint in that state joins the top tier but is never drawn while a weighted peer is in it")
+		}
+	}
+	if n == 0 {
+		r.Undecided("C06-R12", "routable-statuses", token.NoPos, "no EndpointStatus constant evaluated as routable")
+	}
+	addMutants(Mutant{Prop: "C06", Name: "warming-weight-zero", File: "internal/core/domain/endpoint.go", Rule: "C06-R12",
+		Old: "	case StatusWarming:\n		return 0.1\n", New: "	case StatusWarming:\n		return 0.0\n"})
+}
+
+func constantFloat(k *ssa.Const) (float64, bool) {
+	if k == nil || k.Value == nil {
+		return 0, false
+	}
+	f, _ := constant.Float64Val(constant.ToFloat(k.Value))
+	return f, true
 }
